@@ -83,7 +83,7 @@ def main():
         det = meta.get("detection", {})
         for pid in props:
             t0 = time.time()
-            env2 = dict(os.environ, PYREX_REPO=tmp, VERIF_SEED=args.seed)
+            env2 = dict(os.environ, PYREX_REPO=tmp, VERIF_SEED=args.seed, VERIF_SCRATCH=os.path.join(tmp, "_scratch"))
             rc, out = run(["/venv/bin/python", os.path.join(HERE, "run.py"), pid, "--tier", args.tier,
                            "--no-evidence"], env=env2, timeout=7200)
             viol = [l for l in out.splitlines() if l.startswith("VIOLATION")]
@@ -100,7 +100,6 @@ def main():
         open(meta_path, "a").write("\n")
     finally:
         shutil.rmtree(tmp, ignore_errors=True)
-        shutil.rmtree("/tmp/pyrex-verif-scratch", ignore_errors=True)
 
 
 if __name__ == "__main__":
